@@ -6,6 +6,9 @@ harness ignores them):
 ```
 L elf <ps>                                        reset: ELF layout
 L seg <fileoff> <filesz> <phys> <memsz> <virt>
+L seg <fileoff> <filesz> <phys> <memsz> <virt> <index in the program header table>
+L ehdr <e_phnum> <e_shnum> <e_shoff> <sh_size|-> <sh_info|->    header fields as stored (section header 0: - = unreadable);
+                                                  the LOAD segments are those among the first elfCounts(..) table entries
 L dd <ps> <be 0|1> <maxpfn>                       reset: diskdump layout
 L ddfile <fidx> <path> <start> <end> <endbit> <descoff> <bitmap hex>
 L lkcd <path> <ps> <be 0|1> <dataoff> <compression> <key bits, 0 = all>
@@ -39,6 +42,8 @@ structure St where
   zx : Bool := false
   -- ELF
   segs : List LoadSeg := []
+  phtab : List (Nat × LoadSeg) := []
+  sortedC : Option (List LoadSeg × List LoadSeg) := none
   last : ElfLast := {}
   -- diskdump
   ddmaps : List (FileMap × Nat) := []
@@ -114,10 +119,11 @@ def pageAt (s : St) (as addr : Nat) : St × String × Bool :=
     if as = 0 then (s, "xlat", false)
     else
       let kv := as = 2
-      let sorted := s.segs.mergeSort (fun a b => a.phys ≤ b.phys)
-      let vsorted := s.segs.mergeSort (fun a b => a.virt ≤ b.virt)
+      let (sorted, vsorted) := match s.sortedC with
+        | some p => p
+        | none => (s.segs.mergeSort (fun a b => a.phys ≤ b.phys), s.segs.mergeSort (fun a b => a.virt ≤ b.virt))
       let (last', r) := elfGetPage sorted vsorted s.last kv s.zx addr s.ps
-      let s' := { s with last := last' }
+      let s' := { s with last := last', sortedC := some (sorted, vsorted) }
       match r with
       | .nodata => (s', "nodata", false)
       | .needXlat => (s', "xlat", false)
@@ -175,7 +181,14 @@ partial def loop (h : IO.FS.Stream) (s : St) : IO Unit := do
     loop h {}
   | ["L", "elf", ps] => loop h { fmt := .elf, ps := ps.toNat! }
   | ["L", "seg", fo, fs, ph, ms, vi] =>
-    loop h { s with segs := s.segs ++ [⟨fo.toNat!, fs.toNat!, ph.toNat!, ms.toNat!, vi.toNat!⟩] }
+    loop h { s with segs := s.segs ++ [⟨fo.toNat!, fs.toNat!, ph.toNat!, ms.toNat!, vi.toNat!⟩], sortedC := none }
+  | ["L", "seg", fo, fs, ph, ms, vi, idx] =>
+    loop h { s with phtab := (idx.toNat!, ⟨fo.toNat!, fs.toNat!, ph.toNat!, ms.toNat!, vi.toNat!⟩) :: s.phtab }
+  | ["L", "ehdr", pn, sn, so, ssz, sinfo] =>
+    let sh0 := if ssz == "-" then none else some (ssz.toNat!, sinfo.toNat!)
+    match elfCounts pn.toNat! sn.toNat! so.toNat! sh0 with
+    | some (_, phnum) => loop h { s with segs := elfLoads s.phtab phnum, sortedC := none }
+    | none => loop h { s with segs := [], sortedC := none }
   | ["L", "dd", ps, be, mx] => loop h { fmt := .dd, ps := ps.toNat!, be := be == "1", maxPfn := mx.toNat! }
   | ["L", "ddfile", fidx, path, sp, ep, endbit, descoff, hex] =>
     let f ← IO.FS.readBinFile path
